@@ -40,6 +40,10 @@ from ..par import Pool
 from ..core import guarded, MachineryError
 from ..project import fx, ids
 
+# per-call alarm of the library calls: generous (normal calls take < 10 s) - a slow or loaded machine must never
+# turn into a verdict; a genuine hang is still reported (as the event's err) after this time
+CALL_TIMEOUT = 900
+
 RULE = ('scenario = one integer-coordinate mesh (+ one basis and integer coefficient vector) with a sequence of '
         'finder / probes / interpolator / point_source calls; distinct = distinct (kind, p, t, element); '
         'non-trivial = mesh has >= 2 cells and the scenario contains points on shared facets or outside the mesh')
@@ -422,7 +426,7 @@ def exec_find(rec):
     S = rec['S']
     kind = rec['kind']
     events = []
-    mm, err = guarded(lambda: _history_mesh(rec), 60)
+    mm, err = guarded(lambda: _history_mesh(rec), CALL_TIMEOUT)
     if not err and rec.get('derive'):
         P, T = _mesh_pt(mm, kind, 1, 'derived mesh')
         ev = mesh_event(kind, np.array(P).T, T, S)
@@ -434,7 +438,7 @@ def exec_find(rec):
         return events
     for call in rec['calls']:
         X = np.array(call, dtype=float).T / S
-        res, err = guarded(lambda: _find(mm, X), 20)
+        res, err = guarded(lambda: _find(mm, X), CALL_TIMEOUT)
         out = []
         if not err:
             r = np.asarray(res)
@@ -520,7 +524,7 @@ def big_recipe(kind, nslab, rng, fam, ncalls=6):
 def exec_findbig(rec):
     kind = rec['kind']
     events = []
-    mm, err = guarded(lambda: U.make(kind, rec['p'], rec['t']), 60)
+    mm, err = guarded(lambda: U.make(kind, rec['p'], rec['t']), CALL_TIMEOUT)
     ev = mesh_event(kind, rec['p'], rec['t'], 1, big=1)
     ev['err'] = err
     events.append(ev)
@@ -528,7 +532,7 @@ def exec_findbig(rec):
         return events
     for call in rec['calls']:
         X = np.array(call['pts'], dtype=float).T
-        res, err = guarded(lambda: _find(mm, X), 60)
+        res, err = guarded(lambda: _find(mm, X), CALL_TIMEOUT)
         out = []
         if not err:
             r = np.asarray(res)
@@ -569,7 +573,7 @@ def exec_probe(rec):
         W = np.full(X.shape[1], 1. / X.shape[1])
         b = skfem.Basis(m, EL.make(name), quadrature=(X, W))
         return m, b
-    mb, err = guarded(build, 60)
+    mb, err = guarded(build, CALL_TIMEOUT)
     if err:
         events.append({'a': 'Basis', 'err': err, 'elem': name})
         return events
@@ -624,7 +628,7 @@ def exec_probe(rec):
                 u = u[0] if isinstance(u, tuple) else u
                 v = np.asarray(u.value)
                 return v.reshape(-1, Xall.shape[1])[:, qsel]
-            rv, rerr = guarded(refvals, 30)
+            rv, rerr = guarded(refvals, CALL_TIMEOUT)
             ref = None if rerr else rv
         else:
             pts = call['pts']
@@ -656,7 +660,7 @@ def exec_probe(rec):
                 continue                                                    # trailing axes: scalar elements only
             e['op'] = 'interpolator'
 
-        cells, ferr = guarded(lambda: np.asarray(_find(m, X)), 20)
+        cells, ferr = guarded(lambda: np.asarray(_find(m, X)), CALL_TIMEOUT)
         if ferr:                                                            # the finder itself raised
             e['ferr'] = ferr
             events.append(e)
@@ -709,7 +713,7 @@ def exec_probe(rec):
                 Xl = mp2.invF(X[:, :, None], tind=cells)
                 phis = np.array([np.asarray(el2.gbasis(mp2, Xl, i, tind=cells)[0].value) for i in range(nbfun)])
             return rows, vals, phis, ps
-        obs, err = guarded(observe, 60)
+        obs, err = guarded(observe, CALL_TIMEOUT)
         if err:
             e['err'] = err
             events.append(e)
